@@ -318,6 +318,13 @@ func c12CheckPair(c *fw.Ctx, s1, s2 seg, locate, nonRobust bool) {
 			return
 		}
 	}
+	if c12NoHold {
+		// the pair is asked once more the way the next pair will be asked first: the
+		// same four buffers in the same argument positions, with other contents by then
+		if !c12Robust(c, s1, s2, co[0], co[1], co[2], co[3], tr, locate, " (asked again in the first presentation)") {
+			return
+		}
+	}
 	for i := range co {
 		if math.Float64bits(co[i][0]) != orig[i][0] || math.Float64bits(co[i][1]) != orig[i][1] {
 			c.Fail("argument-modified", "the caller's coordinate %d was (%v %v) before the calls and is %s after them (compared bit for bit)", i, math.Float64frombits(orig[i][0]), math.Float64frombits(orig[i][1]), fw.Fs(co[i][:2]))
